@@ -209,3 +209,38 @@ func GuardAtoms(at ssa.Instruction, self ssa.Value) []Atom {
 	}
 	return out
 }
+
+// EntryDisjunction renders the condition under which control enters block b
+// when b has several predecessors that each end in an If (the lowering of
+// `if A || B { … }`): the sorted disjunction of the edge atoms. ok is false when
+// some predecessor is not a conditional edge.
+func EntryDisjunction(b *ssa.BasicBlock, self ssa.Value) (string, bool) {
+	if len(b.Preds) == 0 {
+		return "", false
+	}
+	var parts []string
+	for _, p := range b.Preds {
+		t, f, ok := EdgeAtoms(p, self)
+		if !ok || len(p.Succs) != 2 {
+			return "", false
+		}
+		a := f
+		if p.Succs[0] == b {
+			a = t
+		}
+		s := a.Expr
+		if !a.Truth {
+			s = "!" + s
+		}
+		parts = append(parts, s)
+	}
+	// sort for a canonical form
+	for i := range parts {
+		for j := i + 1; j < len(parts); j++ {
+			if parts[j] < parts[i] {
+				parts[i], parts[j] = parts[j], parts[i]
+			}
+		}
+	}
+	return strings.Join(parts, " || "), true
+}
